@@ -30,8 +30,14 @@ add("C01", "other",
     "result equals Sem's, the stack pointer, globals and output are as before. Over histories (ExprAssign/ExprSession.v): in "
     "every session of expression statements and assignments g = e of pure expressions to globals (g = g + 1 is the INC "
     "instruction), failing statements included, each statement gives Sem's value or error class, binds Sem's globals, writes "
-    "nothing and leaves the machine ready for the next (C01_simple_sessions_partial). Not proved: the simulation for calls, "
-    "control flow, generators, locals/closures, output, g = 1 + g (full statement: C01_compile_correct_statement). The property is "
+    "nothing and leaves the machine ready for the next (C01_simple_sessions_partial). And the whole while-language over "
+    "globals (StmtSem/StmtVM/StmtCorrect/StmtTop.v): blocks, if, if/else and while with pure conditions, nested without bound, "
+    "compiled in value position and in discarded position (both code-generation strategies of each construct, negated-condition "
+    "folding, jumps and back-patching, the last-value slot of a value-position while): for every fuel for which the fuelled "
+    "semantics ssem - which Sem.eval computes with the same fuel - defines a statement, the compiled code run by the VM model "
+    "ends with that value or error class and those globals, in REPL mode and file mode, over whole sessions "
+    "(C01_statement_sessions_partial). Not proved: the simulation for calls, generators, locals/closures, output, g = 1 + g "
+    "(full statement: C01_compile_correct_statement). The property is "
     "decided each run by differential testing: generated sessions are run on the real code and compared, inside Coq, with Sem "
     "(property oracle) and with the compiler/VM model (correspondence; bytecode-level agreement of the compiler model was "
     "established on thousands of statements).", COMMON_NOTE, DIFF)
@@ -39,7 +45,9 @@ add("C09", "other",
     "Partial. Proved in Coq (PropC09.v): the error path resets the main machine completely; stack growth preserves contents; "
     "Push/Pop and PushFrame/PopFrame are balanced in the memory model; a compiled pure-expression statement (any depth, any "
     "operators) leaves sp, the cells below, frames, closures and the main context's ip where they must be "
-    "(C09_pure_expression_is_balanced). Not proved: balance of every other compiled statement "
+    "(C09_pure_expression_is_balanced), and so does every statement of the while-language over globals - blocks, if, if/else, "
+    "while in value and discarded position, any number of iterations, REPL and file mode (C09_statement_is_balanced). Not "
+    "proved: balance of calls, generators and for "
     "(C09_stmt_balanced_statement). Decided each run by reading sp / frame / closure / live-context / ip counters of the real "
     "machine after every statement (both compile modes), loop-scaling programs whose stack length must not depend on the "
     "iteration count, and comparison of all counters with the VM model.", COMMON_NOTE, DIFF)
@@ -94,8 +102,10 @@ add("C12", "other",
     "- any operand selector and any combination of the Discard/ForbidTemp/AcceptTemp/OpDepth/InFor/InFunc flags, i.e. result used "
     "or discarded, operand of a deeper or shallower operator, temp register allowed or not - the emitted code computes the one "
     "value Sem defines (or its error), for literals, globals, all operators, array literals, indexing and slicing at any depth, "
-    "including the equal-operands shortcut. "
-    "For statements with effects the compiled side is C01's open statement. Decided each run by metamorphic testing on the real code: every generated expression "
+    "including the equal-operands shortcut; and for the while-language over globals (C12_statement_used_or_discarded): a "
+    "statement compiled for its value or discarded - both strategies of if, if/else, while, blocks, assignments - has the one "
+    "meaning ssem, conditions must be boolean in every position, if !c A else B is if c B else A. "
+    "For calls, generators and locals the compiled side is C01's open statement. Decided each run by metamorphic testing on the real code: every generated expression "
     "is placed in about 45 positions (used/discarded, function tail, loop body, call argument, array element, assignment, return, "
     "yield, generator, typed identity embeddings at several operator depths, condition positions) and value/output/error class "
     "compared pairwise, plus statement-form equivalences (x=x+1 / x=1+x / t=x;x=t+1, e op e vs t op t, if !c A else B vs if c B else A).",
@@ -235,7 +245,9 @@ add("C10", "proof",
 add("C16", "other",
     "Partial. Proved in Coq about the model of the read-eval loop and the file reader (Repl.v): a script whose top-level "
     "statements are each complete is handed to processInput statement by statement, each as if entered on its own; a final line "
-    "break is irrelevant; bytes inside string literals and comments never count. Decided each run: the model against the real "
+    "break is irrelevant; bytes inside string literals and comments never count; and on the compiler and VM models, for the "
+    "while-language over globals, value-mode compilation (REPL, -eval) and discarding compilation (file mode) leave the same "
+    "globals (C16_modes_bind_the_same_globals). Decided each run: the model against the real "
     "node.Loop/FReader on ~600 arbitrary line sequences (recording parser); ~120 generated scripts (multi-line blocks, arrays and "
     "strings with braces/brackets/quotes/semicolons in strings and comments, with and without final line break) run by the built "
     "binary in file mode and as piped REPL and compared byte for byte with processInput per statement; ~45 single statements run "
